@@ -179,7 +179,12 @@ impl Prop for C16 {
             if i % 32 == 0 && ctx.should_stop() {
                 break;
             }
-            let enc = if ctx.rng.chance(2, 3) { encoding_rs::UTF_8 } else { *ctx.rng.pick(&encs) };
+            let enc = match ctx.rng.below(4) {
+                0 | 1 => encoding_rs::UTF_8,
+                2 => *ctx.rng.pick(&encs),
+                // double-byte encodings whose trail bytes overlap ASCII letters
+                _ => *ctx.rng.pick(&[encoding_rs::SHIFT_JIS, encoding_rs::BIG5, encoding_rs::GBK, encoding_rs::GB18030, encoding_rs::EUC_KR, encoding_rs::EUC_JP]),
+            };
             let esi = ctx.rng.chance(1, 12);
             let o = structgen::Opts { foreign: ctx.rng.chance(2, 3), max_nodes: 10, esi, comments: false, doctype: false, ..Default::default() };
             let d0 = structgen::gen_doc(&mut ctx.rng, &o);
@@ -200,8 +205,16 @@ impl Prop for C16 {
             for nn in &tree.nodes {
                 if ctx.rng.chance(1, 4) {
                     let k = ctx.rng.range(1, 3);
+                    // names of the element's own attributes (decoded), so that edits hit existing - possibly
+                    // non-ASCII - attributes
+                    let own_raw: Vec<String> = {
+                        let tag = &doc.bytes[nn.start..nn.end];
+                        refattr::parse_tag(tag).map(|p| p.attrs.iter().map(|a| dec(enc, &tag[a.name.0..a.name.1])).collect()).unwrap_or_default()
+                    };
                     let ops: Vec<Op> = (0..k)
-                        .map(|_| match ctx.rng.below(5) {
+                        .map(|_| match ctx.rng.below(7) {
+                            5 if !own_raw.is_empty() => Op::SetAttr(ctx.rng.pick(&own_raw).clone(), "nv".to_string()),
+                            6 if !own_raw.is_empty() => Op::RemoveAttr(ctx.rng.pick(&own_raw).to_ascii_uppercase()),
                             0 | 1 => Op::SetAttr((*ctx.rng.pick(&["a", "A", "class", "ID", "new-attr", "data-x", "é", "a b", "", "x=y", "title", "Lang"])).to_string(), (*ctx.rng.pick(&["", "v", "a\"b", "é", "中", "x y", "&amp;", "<>"])).to_string()),
                             2 | 3 => Op::RemoveAttr((*ctx.rng.pick(&["a", "A", "class", "id", "ID", "data-x", "nope", "title", "b", "HREF"])).to_string()),
                             _ => Op::SetTagName((*ctx.rng.pick(&["q", "Q1", "x-y", "", "1a", "a b", "é", "hé", "DIV"])).to_string()),
